@@ -73,13 +73,14 @@ func wfModeName(m ir.BuilderMode) string {
 }
 
 type wfCase struct {
-	Kind   string        `json:"kind"` // "corpus" | "goto" | "struct"
+	Kind   string        `json:"kind"` // "corpus" | "goto" | "struct" | "mini"
 	Corpus string        `json:"corpus,omitempty"`
 	Pkg    string        `json:"pkg,omitempty"`
 	Fn     string        `json:"fn,omitempty"`
 	Mode   int           `json:"mode"`
 	Goto   *wfGotoSpec   `json:"goto,omitempty"`
 	Struct *wfStructSpec `json:"struct,omitempty"`
+	Mini   *wfMiniSpec   `json:"mini,omitempty"`
 	Rule   string        `json:"rule,omitempty"`
 }
 
@@ -463,6 +464,67 @@ func (r *wfRun) gotoBatch(specs []wfGotoSpec, mode ir.BuilderMode) {
 	r.res.Count("generated_goto_function_builds", int64(len(specs)))
 }
 
+// miniBatch builds the programs of the small families (wf_gen2_test.go) as two packages of one
+// program and checks every function.
+func (r *wfRun) miniBatch(specs []wfMiniSpec, mode ir.BuilderMode) {
+	half := (len(specs) + 1) / 2
+	var pkgs []wfGenPkg
+	name := func(i int) string { return fmt.Sprintf("m%d", i) }
+	for pi, part := range [][]wfMiniSpec{specs[:half], specs[half:]} {
+		if len(part) == 0 {
+			continue
+		}
+		var src strings.Builder
+		fmt.Fprintf(&src, "package k%d\n%s", pi, wfMiniPrelude)
+		for i, s := range part {
+			src.WriteString(s.source(name(pi*half + i)))
+		}
+		pkgs = append(pkgs, wfGenPkg{fmt.Sprintf("gen/k%d", pi), src.String()})
+	}
+	built, _, genErr, buildPanic := wfBuildProgram(pkgs, 26, mode)
+	if genErr != "" {
+		r.res.Note("generator defect (mini families): %s", genErr)
+		r.res.NotExhaustive("a generated program did not type-check")
+		return
+	}
+	if buildPanic != "" {
+		js, _ := json.Marshal(specs[0])
+		r.mu.Lock()
+		key := fmt.Sprintf("mini:batch-from:%s:build.panic", js)
+		r.found[key] = wfFound{key: key, mode: mode, c: wfCase{Kind: "mini", Mini: &specs[0], Mode: int(mode), Rule: "build.panic"},
+			msg: fmt.Sprintf("[build.panic] the builder panicked in mode %s on a batch of mini programs starting at %s: %s", wfModeName(mode), js, buildPanic)}
+		r.mu.Unlock()
+		return
+	}
+	for i, s := range specs {
+		pi := 0
+		if i >= half {
+			pi = 1
+		}
+		fn := built[pi].Pkg.Func(name(i))
+		if fn == nil {
+			r.res.Note("generated function %s missing", name(i))
+			r.res.NotExhaustive("generated function missing")
+			continue
+		}
+		js, _ := json.Marshal(s)
+		spec := s
+		var all []*ir.Function
+		var walk func(f *ir.Function)
+		walk = func(f *ir.Function) {
+			all = append(all, f)
+			for _, a := range f.AnonFuncs {
+				walk(a)
+			}
+		}
+		walk(fn)
+		for k, g := range all {
+			r.checkOne(g, mode, fmt.Sprintf("mini:%s:fn%d", js, k), wfCase{Kind: "mini", Mini: &spec}, "\nsource:\n"+s.source("f"))
+		}
+	}
+	r.res.Count("generated_mini_function_builds", int64(len(specs)))
+}
+
 // wfGotoSpecs: the bounded space of goto programs, smallest first.
 //
 //	quick:    n<=2: all CFGs x all escape assignments x {defer};  n=3: CFGs with unordered target pairs x
@@ -560,6 +622,38 @@ func (r *wfRun) structProgram(specs []wfStructSpec, goMinor int, mode ir.Builder
 }
 
 func (r *wfRun) generated() {
+	// the small families first: a few thousand tiny functions × 16 modes
+	minis := wfMiniSpecs()
+	r.res.Count("mini_specs", int64(len(minis)))
+	r.res.Sample(map[string]any{"kind": "mini", "mini": minis[len(minis)-40], "source": minis[len(minis)-40].source("f")})
+	{
+		const mb = 160
+		type mjob struct {
+			lo, hi int
+			mode   ir.BuilderMode
+		}
+		var mjobs []mjob
+		for lo := 0; lo < len(minis); lo += mb {
+			hi := min(lo+mb, len(minis))
+			for _, m := range wfModes16 {
+				mjobs = append(mjobs, mjob{lo, hi, m})
+			}
+		}
+		var mskipped atomic.Int64
+		wfParallel(len(mjobs), func(i int) {
+			if r.expired() {
+				mskipped.Add(1)
+				return
+			}
+			r.miniBatch(minis[mjobs[i].lo:mjobs[i].hi], mjobs[i].mode)
+		})
+		if n := mskipped.Load(); n > 0 {
+			r.res.NotExhaustive(fmt.Sprintf("time budget reached: %d of %d mini batches not run", n, len(mjobs)))
+		}
+	}
+	if os.Getenv("VERIF_C02_ONLY_GEN") == "mini" { // development aid
+		return
+	}
 	// structured programs: both language versions × 16 modes
 	type sjob struct {
 		minor int
@@ -1009,6 +1103,10 @@ func (r *wfRun) replay(raw json.RawMessage) {
 	case "goto":
 		if c.Goto != nil {
 			r.gotoBatch([]wfGotoSpec{*c.Goto}, mode)
+		}
+	case "mini":
+		if c.Mini != nil && c.Mini.ok() {
+			r.miniBatch([]wfMiniSpec{*c.Mini}, mode)
 		}
 	case "struct":
 		if c.Struct != nil && c.Struct.ok() {
